@@ -198,6 +198,36 @@ def evaluate(case):
                 dict(tags, what=cands[key][0]),
             )
 
+    # (b') particles proposed by the kernel carry the right incremental weight
+    from vp.model import from_tree
+
+    gen_clear_prop_only()
+
+    def lpdf(t):
+        return -math.log(count_linear_extensions_formula(from_tree(t))) if case["perm"] else 0.0
+
+    base_w = 0.0 if parent_tree is None else float(tree_dist.log_p(parent_tree)) + lpdf(parent_tree)
+
+    def draw_particle():
+        pt = kernel.propose_particle(dp, parent_particle)
+        return (tree_key(pt.tree), float(pt.log_w))
+
+    try:
+        resp = explore(draw_particle, rng, max_leaves=20000)
+    except Exception as e:
+        raise crash_violation("propose/%s" % kind, e, tags)
+    for pr, (key, lw) in resp:
+        if key not in cands:
+            raise Violation("sampling-law/%s" % kind, "propose_particle returns a tree outside the enumerated placements: %r" % (key,), tags)
+        t = cands[key][1]
+        expect = float(tree_dist.log_p(t)) + lpdf(t) - base_w - logq[key]
+        if not abs(lw - expect) <= 1e-8 * max(1.0, abs(expect)):
+            raise Violation(
+                "weights/%s/proposed" % kind,
+                "proposed particle (%s) has log_w %.12g, expected target ratio minus proposal = %.12g (parent %r, perm=%s)" % (cands[key][0], lw, expect, pm, case["perm"]),
+                dict(tags, what=cands[key][0]),
+            )
+
     # ---------------- (c) weights along a constrained path
     wl = _weights(case, values, grid, tree_dist, tags, classes)
     nontrivial = pm is not None and (pm.k > 0 or len(pm.outliers) > 0)
